@@ -105,7 +105,9 @@ THk == /\ Is("Hk")
 TPend == Is("Pend") /\ Timed(Pend(E.c, E.k))
 THLive == Is("HLive") /\ Timed(HLive(E.h, E.k, E.res, E.x))
 TCReg == Is("CReg") /\ Timed(CRegN(E.n))
-TQuiesce == Is("Quiesce") /\ Timed(Quiesce(E.n, E.c, E.h \div 1000, E.h % 1000))
+\* (the orchestrator turns a TRACE_DEVIATION line into KNOWN-FINDING if known_findings.json lists it, else VIOLATION)
+TQuiesce == Is("Quiesce") /\ (SenderHol(E.h % 1000) => PrintT(<<"TRACE_DEVIATION", "SenderHol", l>>))
+                          /\ Timed(Quiesce(E.n, E.c, E.h \div 1000, E.h % 1000))
 
 \* Crash, Wedged and Leak lines have no action: a trace containing one is rejected.
 
